@@ -965,7 +965,7 @@ func genDraw(g *h.Gen) {
 				ops = append(ops, fmt.Sprintf("S %d %d %d %s %s", x, y, m, h.ShowIntList(comb), drawStyle(r)))
 			case k < 49:
 				fr := h.Pick(r, []int{' ', '.', 'x', 0x2500})
-				if r.Chance(30) { // Fill is one more way to supply primary cell content (C09): controls, zero-width, format, invalid
+				if r.Chance(12) { // Fill is one more way to supply primary cell content (C09): controls, zero-width, format, invalid
 					fr = h.Pick(r, fillSpecial)
 				}
 				ops = append(ops, fmt.Sprintf("F %d %s", fr, drawStyle(r)))
